@@ -403,7 +403,7 @@ func c02GenIncludeFault(r *xrand.Rand, idx int, tier string) *fw.Case {
 	if target == root && len(chain) > 1 && r.Chance(3, 4) {
 		target = chain[1]
 	}
-	kind := []string{"bad-char", "dup-type", "undefined-type", "undefined-tag", "unknown-directive-param", "dup-server", "bad-schema", "chained-type-fault", "chained-type-fault", "unclosed-paren", "path-param-object-type", "path-param-object-type", "path-body-regex-type", "path-body-regex-type"}[r.Intn(14)]
+	kind := []string{"bad-char", "dup-type", "undefined-type", "undefined-tag", "unknown-directive-param", "dup-server", "bad-schema", "chained-type-fault", "chained-type-fault", "unclosed-paren", "path-param-object-type", "path-param-object-type", "path-body-regex-type", "path-body-regex-type", "paren-opened-by-included-file", "paren-opened-by-included-file"}[r.Intn(16)]
 	var faultLines, innocent []string
 	faultLine := 0 // index within faultLines of the directive line the diagnostic must point into
 	switch kind {
@@ -440,6 +440,20 @@ func c02GenIncludeFault(r *xrand.Rand, idx int, tier string) *fw.Case {
 		root.lines = append([]string{root.lines[0], fmt.Sprintf("TYPE @objT%d", uniq), "{\"a\": 1}"}, root.lines[1:]...)
 		faultLines = []string{fmt.Sprintf("GET /pp%d/{id}", uniq), "  Path", "  {", fmt.Sprintf("    \"id\": @objT%d", uniq), "  }", "  200 any"}
 		innocent = []string{fmt.Sprintf("GET /zz%d/{k}", uniq), "  Path", "  {", "    \"k\": 1", "  }", "  200 any"}
+	case "paren-opened-by-included-file":
+		// the directive stands at the end of one file, its parenthesis is the first thing of the file included next, and
+		// that file never closes it: the file at fault is the included one
+		uniq++
+		tdir := filepath.Dir(target.name)
+		if tdir == "." {
+			tdir = ""
+		} else {
+			tdir += "/"
+		}
+		nf := newFile(fmt.Sprintf("%szzopen%d.jst", tdir, uniq))
+		target.lines = append(target.lines, fmt.Sprintf("URL /upi%d", uniq), fmt.Sprintf("INCLUDE zzopen%d.jst", uniq))
+		target = nf
+		faultLines = []string{"(", "  GET", "    200 any"}
 	case "path-body-regex-type":
 		// the body of a Path directive is a reference (directly or through an alias type) to a regex type: the regex
 		// type itself is valid and stands at the top of the root file; the directive at fault is the Path directive
@@ -499,7 +513,7 @@ func c02GenIncludeFault(r *xrand.Rand, idx int, tier string) *fw.Case {
 			}
 			lo = off
 			hi = off + len(f.lines[at+faultLine])
-			if kind == "dup-type" || kind == "dup-server" || kind == "bad-char" || kind == "unknown-directive-param" || kind == "chained-type-fault" || kind == "unclosed-paren" || kind == "path-param-object-type" || kind == "path-body-regex-type" {
+			if kind == "dup-type" || kind == "dup-server" || kind == "bad-char" || kind == "unknown-directive-param" || kind == "chained-type-fault" || kind == "unclosed-paren" || kind == "path-param-object-type" || kind == "path-body-regex-type" || kind == "paren-opened-by-included-file" {
 				// whole directive (keyword line .. end of its last line)
 				hi = off
 				for i := at; i < at+len(faultLines); i++ {
